@@ -130,7 +130,7 @@ func checkChildAccessorsGuarded(r *Run) {
 					})
 					return found
 				}
-				for _, l := range pathConditions(fd.Body, at) {
+				for _, l := range controlConds(fd.Body, at) {
 					if test(l.Expr, l.Neg) {
 						return true
 					}
